@@ -32,6 +32,7 @@ META = dict(
     required_hits=["legacy_cards_converted", "archives_read", "operators_compared", "linear_grid_archives", "log_grid_archives"],
     max_inconclusive_frac=0.05,
 )
+META["level_text"] += ' Each legacy archive is additionally edited (metadata rewritten), closed and read again.'
 
 MODEV = {"EXA": "iterate-exact", "EXP": "iterate-expanded", "TRN": "truncated"}
 
